@@ -19,6 +19,7 @@ import (
 	"fmt"
 	"net"
 	"reflect"
+	"slices"
 	"sync"
 
 	"github.com/samber/lo"
@@ -135,7 +136,8 @@ func (pm *Manager) GetProxyStatus(name string) (*WorkingStatus, bool) {
 
 func (pm *Manager) UpdateAll(proxyCfgs []v1.ProxyConfigurer) {
 	xl := xlog.FromContextSafe(pm.ctx)
-	proxyCfgsMap := lo.KeyBy(proxyCfgs, func(c v1.ProxyConfigurer) string {
+	// If a name occurs more than once the first entry wins, here as in the add loop below.
+	proxyCfgsMap := lo.KeyBy(lo.Reverse(slices.Clone(proxyCfgs)), func(c v1.ProxyConfigurer) string {
 		return c.GetBaseConfig().Name
 	})
 	pm.mu.Lock()
